@@ -36,6 +36,38 @@ def outcome_of(fn, *a, **kw):
         return ("exc", e)
 
 
+class numeric_env:
+    """
+    The floating-point error state / warning policy of the calling program: numpy's default,
+    np.errstate(divide / invalid / over = 'raise') (numerical code bases that want to hear about
+    NaNs), or RuntimeWarnings turned into errors (python -W error::RuntimeWarning, pytest -W error).
+    evo's answer must not depend on it.
+    """
+    KINDS = ["default", "default", "default", "default", "errstate-raise", "warnings-as-errors"]
+
+    def __init__(self, rng, kind=None):
+        self.kind = kind or self.KINDS[int(rng.integers(len(self.KINDS)))]
+
+    def __enter__(self):
+        import warnings
+        self._stack = []
+        if self.kind == "errstate-raise":
+            cm = np.errstate(divide="raise", invalid="raise", over="raise")
+            cm.__enter__()
+            self._stack.append(cm)
+        elif self.kind == "warnings-as-errors":
+            cm = warnings.catch_warnings()
+            cm.__enter__()
+            warnings.simplefilter("error", RuntimeWarning)
+            self._stack.append(cm)
+        return self
+
+    def __exit__(self, *exc):
+        for cm in reversed(self._stack):
+            cm.__exit__(*exc)
+        return False
+
+
 # ------------------------------------------------------------------ C03 Umeyama oracle
 def centred_singular_values(x, y):
     n = x.shape[1]
